@@ -20,6 +20,7 @@ import (
 	"strconv"
 	"strings"
 	"sync"
+	"time"
 
 	"github.com/whatap/golib/util/bitutil"
 	"github.com/whatap/golib/util/hash"
@@ -836,6 +837,27 @@ func ipProps(a uint32) string {
 	return s
 }
 
+// ipPropsCore: the laws that need one call each (used for the sweep over all 2^32 addresses;
+// ToString∘ToBytes on the canonical text follows from ToBytes(s) == b by determinism, and the
+// FrInt/Int text forms are ToString∘ToBytesFrInt, swept in the strided section).
+func ipPropsCore(a uint32) string {
+	b := [4]byte{byte(a >> 24), byte(a >> 16), byte(a >> 8), byte(a)}
+	i := int32(a)
+	s := iputil.ToString(b[:])
+	back := iputil.ToBytes(s)
+	if len(back) != 4 || back[0] != b[0] || back[1] != b[1] || back[2] != b[2] || back[3] != b[3] {
+		failProp("iputil:ToBytes-of-ToString", fmt.Sprintf("ToBytes(ToString(%v)) = ToBytes(%q) = %v", b, s, back), replay{Op: "IS " + vh.Hex(b[:])})
+	}
+	bi := iputil.ToBytesFrInt(i)
+	if len(bi) != 4 || bi[0] != b[0] || bi[1] != b[1] || bi[2] != b[2] || bi[3] != b[3] {
+		failProp("iputil:ToBytesFrInt-big-endian", fmt.Sprintf("ToBytesFrInt(%d) = %v", i, bi), replay{Op: fmt.Sprintf("II %d", i)})
+	}
+	if j := iputil.ToInt(bi); j != i {
+		failProp("iputil:ToInt-of-ToBytesFrInt", fmt.Sprintf("ToInt(ToBytesFrInt(%d)) = %d", i, j), replay{Op: fmt.Sprintf("II %d", i)})
+	}
+	return s
+}
+
 func ipSection(addrs []uint32) {
 	var lines, impls []string
 	texts := make([]string, len(addrs))
@@ -897,7 +919,7 @@ func ipSpecial() {
 func ipFull() {
 	const shards = 256
 	var wg sync.WaitGroup
-	sem := make(chan struct{}, 12)
+	sem := make(chan struct{}, 14)
 	for sh := 0; sh < shards; sh++ {
 		wg.Add(1)
 		sem <- struct{}{}
@@ -907,7 +929,7 @@ func ipFull() {
 			o := vh.Guard(func() {
 				for lo := uint32(0); ; lo++ {
 					a := sh<<24 | lo
-					if s := ipProps(a); s != mirrorDotted(a) {
+					if s := ipPropsCore(a); s != mirrorDotted(a) {
 						failCorr("iputil:ToString-differs-from-mirror", fmt.Sprintf("ToString(%v) = %q", ipBytes(a), s), replay{Op: "IS " + vh.Hex(ipBytes(a)), Impl: s, Model: mirrorDotted(a)})
 					}
 					if lo == 1<<24-1 {
@@ -1059,6 +1081,11 @@ func main() {
 		return
 	}
 
+	t0 := time.Now()
+	lap := func(name string) {
+		rep.Note("section %s: %.1fs", name, time.Since(t0).Seconds())
+		t0 = time.Now()
+	}
 	// 1. CRC family
 	nHash, nBulk := 100000, 0
 	if env.Thorough {
@@ -1074,6 +1101,7 @@ func main() {
 		hashBulk(rng.Fork(), nBulk)
 	}
 
+	lap("crc")
 	// 2. murmur
 	nMur := 60000
 	if env.Thorough {
@@ -1120,11 +1148,12 @@ func main() {
 	}
 	murmurLongSection(mls)
 
+	lap("murmur")
 	// 3. Hexa32
 	hv := hexaBoundaries()
 	nHexDrv, nHexDirect := 150000, 1000000
 	if env.Thorough {
-		nHexDrv, nHexDirect = 1000000, 20000000
+		nHexDrv, nHexDirect = 1000000, 10000000
 	}
 	for i := 0; i < nHexDrv; i++ {
 		switch {
@@ -1142,6 +1171,7 @@ func main() {
 	hexaSection(hv, true)
 	hexaDirect(rng.Fork(), nHexDirect) // property only (round trip + forms) on the implementation
 
+	lap("hexa32")
 	// 4. bitutil
 	nBit := 40000
 	if env.Thorough {
@@ -1149,6 +1179,7 @@ func main() {
 	}
 	bitSection(bitInputs(rng, nBit))
 
+	lap("bitutil")
 	// 5. IPv4
 	ipSpecial()
 	var addrs []uint32
@@ -1166,8 +1197,10 @@ func main() {
 		addrs = append(addrs, uint32(a))
 	}
 	ipSection(addrs)
+	lap("ipv4-strided")
 	if env.Thorough {
 		ipFull()
+		lap("ipv4-all-2^32")
 	}
 
 	knownReplays()
